@@ -1,5 +1,5 @@
 ---- MODULE MC_NumFmt2 ----
-EXTENDS NumFmt2
+EXTENDS NumFmt2, Json
 
 Q(chars)  == Item("q", chars)
 B(c)      == Item("b", <<c>>)
@@ -51,7 +51,7 @@ MCCatalogue == <<
   << Plain(Z(1), Z(1)), Col(NumS(<<B("-")>>, Z(1), FALSE, Z(1), 0, <<>>), Red), LitS(<<Q(<<"z","e","r","o">>)>>) >>,
   << NumS(<<B("$")>>, <<"#", "#", "#", "0">>, TRUE, Z(2), 0, <<>>), NumS(<<B("-"), B("$")>>, <<"#", "#", "#", "0">>, TRUE, Z(2), 0, <<>>),
      LitS(<<B("-")>>), TextS(<<At, Pad("-")>>) >>,
-  << NumS(<<Cur(<<"\\u20ac">>, <<"4","0","7">>), B(" ")>>, Z(1), FALSE, Z(2), 0, <<>>) >>,
+  << NumS(<<Cur(<<"k","r">>, <<"4","1","D">>), B(" ")>>, Z(1), FALSE, Z(2), 0, <<>>) >>,
   << NumS(<<>>, Z(1), FALSE, <<>>, 0, <<Pct, Q(<<" ", "x">>)>>), NumS(<<B("(")>>, Z(1), FALSE, <<>>, 0, <<Pct, B(")")>>) >>,
   (* conditions *)
   << Cond(Plain(Z(1), Z(1)), <<">", "=">>, Rc(FALSE, <<1, 0>>, <<>>)), NumS(<<Q(<<"s">>)>>, Z(1), FALSE, Z(2), 0, <<>>) >>,
@@ -73,11 +73,15 @@ MCCatalogue == <<
   << DateS(<<El(<<"h">>)>>) >>
 >>
 
-(* block starts (in units of Block numbers): 0.00.., 0.40.., 0.80.., 9.60.., 99.60.., 149.60.., 999.60..,
-   1234.40.., 4999.60.., 9999.60.. *)
-QuickStarts == {0, 1, 2, 24, 249, 374, 2499, 3086, 12499, 24999}
-ThoroughStarts == 0..250 \cup {b * 25 + 24 : b \in 10..999}
+(* block starts (in units of Block = 20 numbers): 0.00.., 0.40.., 0.80.., 9.80.., 99.80.., 999.80.., 1234.40..,
+   9999.80.. *)
+QuickStarts == {0, 2, 4, 49, 499, 4999, 6172, 49999}
+ThoroughStarts == 0..500 \cup {b * 50 + 49 : b \in 10..999}
 
 (* a deviant design for the vacuity guard: literals are not rendered *)
 DevLit == {KLit}
+
+(* replay run: one REPLAY line per (format, value) pair the machine visits *)
+SpecR == Init2 /\ [][Advance]_vars2
+EmitReplay == PrintT(<<"REPLAY", ToJson([secs |-> CurF, x |-> CurV])>>)
 ====
